@@ -61,3 +61,26 @@ func TestPlan(t *testing.T) {
 	}
 	fmt.Println(cnt)
 }
+
+// TestServe runs one input through the probe's serve() in-process and prints
+// what it reports (development aid): C16_HEX=0102 C16_MODE=sei-direct C16_TYPES=5
+func TestServe(t *testing.T) {
+	env := &runner.Env{Tier: "quick", Seed: 1, RepoDir: "/repo"}
+	s, err := loadSeeds(env)
+	if err != nil {
+		t.Fatal(err)
+	}
+	seeds = s
+	defaultMaps = buildDefaultMaps(s)
+	it := item{In: unhex(os.Getenv("C16_HEX")), Desc: "test sei", Mode: os.Getenv("C16_MODE")}
+	for _, f := range strings.Split(os.Getenv("C16_TYPES"), ",") {
+		if v, err := strconv.Atoi(f); err == nil {
+			it.Types = append(it.Types, uint(v))
+		}
+	}
+	resp := serve(&probeReq{Items: []item{it}})
+	for _, v := range resp.Viol {
+		fmt.Println("VIOL", v.Key, "|", v.What)
+	}
+	fmt.Println("nops", resp.NOps, resp.Counts)
+}
